@@ -260,6 +260,36 @@ fn large_cases(out: &mut Vec<Case>) {
     });
 }
 
+/// Degenerate contents: files that are all zeros (sparse images), of several lengths from 4 KiB up,
+/// shorter ones first - each its own block (small-file threshold 0), and two above 1 MiB under the
+/// default options.
+fn zero_cases(out: &mut Vec<Case>) {
+    out.push(Case {
+        tag: "zeros: all-zero files of 4096, 5000, 9000 and 70000 bytes, each its own block".into(),
+        opts: BOpts::new(1000, 1 << 20, 0),
+        sweep: "large",
+        tree: Box::new(|| {
+            let mut t = empty_tree();
+            for (i, sz) in [4096usize, 5000, 9000, 70_000].iter().enumerate() {
+                t.insert(format!("z{i}"), Node::file(&vec![0u8; *sz], T0 + 85 + i as i64));
+            }
+            t.insert("ones".into(), Node::file(&vec![0xffu8; 6000], T0 + 89));
+            t
+        }),
+    });
+    out.push(Case {
+        tag: "zeros: all-zero files of 1.5 MiB and 2.5 MiB, default options".into(),
+        opts: BOpts::defaults(),
+        sweep: "large",
+        tree: Box::new(|| {
+            let mut t = empty_tree();
+            t.insert("a.img".into(), Node::file(&vec![0u8; 3 << 19], T0 + 90));
+            t.insert("b.img".into(), Node::file(&vec![0u8; 5 << 19], T0 + 91));
+            t
+        }),
+    });
+}
+
 /// More distinct blocks than the block cache holds (100) and than the listing fans out at once
 /// (30 sub-directories): 150 one-block files, then 150 files with the same contents again, so that
 /// every block is read a second time after it has been evicted.
@@ -310,6 +340,7 @@ pub fn cases(thorough: bool) -> Vec<Case> {
     rollover_case(&mut v);
     large_cases(&mut v);
     many_blocks_case(&mut v);
+    zero_cases(&mut v);
     structure_cases(if thorough { 4 } else { 3 }, &mut v);
     layout_cases(if thorough { 3 } else { 2 }, &mut v);
     if thorough {
